@@ -1,6 +1,7 @@
 import TinysetModel.Proofs.PropsAux
 import TinysetModel.Proofs.Demo
 import TinysetModel.Proofs.Consts
+import TinysetModel.Proofs.TotalOpsExtend
 /-! C05 — collect()/extend() build exactly the set of distinct items of any sequence.
 
 Model functions: `fromIter` is `SetU64::from_iter` / `SetU32::from_iter` (sort + dedup, inline attempt,
@@ -123,6 +124,19 @@ example : WF cfg32 (.heap 3 3 1 #[7, 2147483649, 11]) := (collect_loop_u32 detRn
 /-- `extend` of a non-empty heap set: the hypotheses `WF` and "returns" hold together -/
 example : extend cfg64 detRng 6 Demo.bitmap64 [1000, 7, 7] () = .ok (.heap 3 3 23 #[401016175510691840, 128, 360712192], ()) := by
   decide +kernel
+
+/-- SetU64: `collect()` always returns (sequences of fewer than 2^60 items) and is the set of distinct items -/
+theorem collect_returns_u64 {D : Type} (g : Rng D) (fuel : Nat) (xs : List Nat) (hrange : ∀ x ∈ xs, x < 2 ^ 64)
+    (hlen : xs.length < 2 ^ 60) (d : D) :
+    ∃ r d', fromIter cfg64 g (fuel + 2) xs d = .ok (r, d') ∧ WF cfg64 r ∧ ∀ x, x ∈ elems cfg64 r ↔ x ∈ xs :=
+  fromIter_total_correct_u64 g fuel xs hrange hlen d
+
+/-- SetU64: `extend()` always returns, within the ghost capacity bound of C11 -/
+theorem extend_returns_u64 {D : Type} (g : Rng D) (fuel : Nat) {r : Rp} (wf : WF cfg64 r) (xs : List Nat)
+    (hx : ∀ x ∈ xs, x < 2 ^ 64) {M : Nat} (hc : CapOK r M) (hsize : M + xs.length < 2 ^ 60) (d : D) :
+    ∃ r' d', extend cfg64 g (fuel + 2) r xs d = .ok (r', d') ∧ WF cfg64 r' ∧ CapOK r' (Max.max M (len r')) ∧
+      ∀ x, x ∈ elems cfg64 r' ↔ (x ∈ elems cfg64 r ∨ x ∈ xs) :=
+  extend_total_u64 g fuel wf xs hx hc hsize d
 
 end C05
 
